@@ -350,7 +350,11 @@ func (in *instance) handle(r *ev.Run, d []byte, bound, oob int, hist []string, c
 		r.Violate("C01/lock-left-held/prefix", "prefix plugin mutex held after the handler returned", c)
 		return false
 	}
-	r.Eval(fmt.Sprintf("%s/replies=%d", class, out.Replies()))
+	cl := fmt.Sprintf("%s/replies=%d", class, out.Replies())
+	r.Eval(cl)
+	if len(d) < 600 {
+		r.Sample(cl, c)
+	}
 	return true
 }
 
